@@ -12,7 +12,10 @@ rc::Gen<Case> genFor(const std::string &id, int tier) {
         auto pad = one(op("padp", {uni(0, 255), uni(0, 3)}));
         auto scratch = concat({genScriptOpsFor("C03", tier), pad});
         auto edited = concat({genFileOpsFor(tier, true), one(op("load", {})), genScriptOpsFor("C03e", tier), pad});
-        return asCase(rc::gen::oneOf(scratch, scratch, edited));
+        // (the closing parameter call re-runs the header update; one history in four puts it first, so that the object is saved right after
+        //  its last frame / column call)
+        auto padFirst = concat({pad, genScriptOpsFor("C03n", tier)});
+        return asCase(rc::gen::oneOf(scratch, scratch, edited, padFirst));
     }
     if (id == "C01") {
         // mostly content assembled from scratch; one history in five assembles it on top of a generated file that was loaded first
